@@ -19,11 +19,13 @@ Lemma map_nil_inv {A B} (g : A -> B) l : map g l = [] -> l = [].
 Proof. destruct l; [reflexivity | discriminate]. Qed.
 
 Section ViewerOracle.
-  Variables (u : upload_cfg) (f : cfile).
+  (* f is one of the week's files; the X = 0 upload is built from the whole week *)
+  Variables (u : upload_cfg) (files : list cfile) (f : cfile).
+  Hypothesis Hf : In f files.
   Local Notation c := (new_config u).
   Local Notation i := (f_ident f).
   Local Notation prog := (id_program (f_ident f)).
-  Local Notation ps := (filter_upload (new_config u) 0 (aggregate [f])).
+  Local Notation ps := (filter_upload (new_config u) 0 (aggregate files)).
 
   Lemma keeps0_approved k : uploader_keeps c 0 prog k = approved_itemb u prog k.
   Proof. apply deciders_item_agree. Qed.
@@ -39,9 +41,9 @@ Section ViewerOracle.
       (uploader_keeps c 0 prog k = true <-> exists v, In (k, v) (if is_stack k then ss else cs)).
   Proof.
     intro Ha. apply approved_buildb_spec in Ha.
-    destruct (upload_complete u [f] 0 f (or_introl eq_refl) Ha) as [cs [ss [Hin _]]].
+    destruct (upload_complete u files 0 f Hf Ha) as [cs [ss [Hin _]]].
     exists cs, ss. split; [apply (In_aget _ _ ident_eqb ident_eqb_eq); [apply ps_nodup | exact Hin]|].
-    intros k v0 Hk. rewrite (uploader_keeps_iff_uploaded u [f] f k v0 (or_introl eq_refl) Hk Ha). split.
+    intros k v0 Hk. rewrite (uploader_keeps_iff_uploaded u files f k v0 Hf Hk Ha). split.
     - intros [cs1 [ss1 [v [Hin1 Hv]]]].
       assert (He : (cs1, ss1) = (cs, ss)).
       { pose proof (In_aget _ _ ident_eqb ident_eqb_eq _ _ _ ps_nodup Hin) as E0.
